@@ -1,0 +1,18 @@
+//go:build verif
+
+package announce
+
+// VerifStringLRU exposes the duplicate-announcement cache to the simulation
+// harness so that it can be driven directly at small capacities.
+type VerifStringLRU struct{ c *stringLRU }
+
+func NewVerifStringLRU(size int) *VerifStringLRU { return &VerifStringLRU{c: newStringLRU(size)} }
+
+// Update reports whether s was already present, as stringLRU.update does.
+func (l *VerifStringLRU) Update(s string) bool { return l.c.update(s) }
+
+// Remove removes s from the cache.
+func (l *VerifStringLRU) Remove(s string) { l.c.remove(s) }
+
+// Len returns the number of cached strings.
+func (l *VerifStringLRU) Len() int { return l.c.len() }
